@@ -48,7 +48,7 @@ def configs(tier):
                         if weights == 'both' and g == 'K3' and len(I0) == 1 and tier == 'quick':
                             continue    # >3000 weight-order paths: thorough tier only
                         for tmax in ('inf', 'sym'):
-                            if tmax == 'sym' and (full or weights != 'none' or R0):
+                            if tmax == 'sym' and (weights != 'none' or R0 or (full and (entry == 'Gillespie_SIR' or n > 3 or len(I0) > 1))):
                                 continue
                             tags = [g, 'full' if full else 'plain', 'w:' + weights, 'tmax:' + tmax]
                             if R0:
